@@ -196,7 +196,7 @@ def h_session(V):
     orig = cc.HostConnection
     cc.HostConnection = _Pool
     try:
-        order = V.pick('order', ['event-then-shutdown', 'shutdown-then-event', 'shutdown-while-task-queued'])
+        order = V.pick('order', ['event-then-shutdown', 'shutdown-then-event', 'shutdown-while-task-queued', 'shutdown-at-a-sync-point-of-the-task'])
         def run_tasks():
             while tasks:
                 fn, a, k = tasks.pop(0)
@@ -217,10 +217,17 @@ def h_session(V):
                 s.update_created_pools()
             run_tasks()
             V.check(len(s._opened) == opened, 'session:no-pool-opened-after-shutdown', note='%s opened %d pool(s) after shutdown' % (which, len(s._opened) - opened))
-        else:
+        elif order == 'shutdown-while-task-queued':
             s.add_or_renew_pool(hosts[0], False)     # queued on the executor
             s.shutdown()
             run_tasks()
+        else:
+            # another thread calls shutdown() at an acquire/release of the session lock inside the pool-creation task
+            pre = kit.Preempter(V, ('run_add_or_renew_pool', 'add_or_renew_pool'), lambda *a: s.shutdown())
+            s._lock = kit.SchedLock('session._lock', pre)
+            s.add_or_renew_pool(hosts[0], False)
+            run_tasks()
+            s.shutdown()
     finally:
         cc.HostConnection = orig
     V.tag('order', order)
